@@ -66,9 +66,17 @@ def obs_val(v):
 
 def do_update(r, tname, obs):
     if tname == "RATIO":
-        r.update(obs[0], obs[1])
+        v, t = obs[0], obs[1]
+        if isinstance(v, int) and isinstance(t, int) and (v + t) % 3 == 0:
+            v, t = np.int64(v), np.int32(t)                 # counts straight out of numpy
+        r.update(v, t)
     else:
-        r.update(obs_val(obs[0]))
+        v = obs_val(obs[0])
+        if isinstance(v, int) and not isinstance(v, bool) and v % 3 == 0 and tname != "MISC":
+            v = np.int64(v)
+        elif isinstance(v, float) and tname == "SUM" and int(v * 1000) % 4 == 0:
+            v = np.float64(v)
+        r.update(v)
 
 
 def stats_of(r, tname):
@@ -246,6 +254,11 @@ def gen_plan(rng, tier, idx, opts):
             if rng.random() < 0.5:
                 g[pn].sort()                      # sweeps are often, but not always, given in ascending order
         grids.append(g)
+    mixed_types = rng.random() < 0.2
+    if mixed_types:
+        # the first sweep used whole numbers (an integer grid), the second one fills in between (floats): the union holds both
+        for pn in pnames:
+            grids[1][pn] = [v + rng.choice([0.5, 0.25, 0.0]) for v in grids[1][pn]]
     sets = []
     for g in grids:
         nv = 1
@@ -255,7 +268,7 @@ def gen_plan(rng, tier, idx, opts):
         for v in range(nv):
             per_v.append({nm: [gen_obs(rng, nm, mode) for _ in range(rng.randint(1, 5))] for nm in names})
         sets.append({"grid": g, "obs": per_v})
-    return {"world": "results", "level": "combine", "mode": mode, "names": names, "fixed": {"nt": rng.choice([2, "x"])}, "params_reused": rng.random() < 0.25,
+    return {"world": "results", "level": "combine", "mode": mode, "names": names, "fixed": {"nt": rng.choice([2, "x"])}, "params_reused": rng.random() < 0.25, "mixed_types": mixed_types,
             "array": rng.random() < 0.5, "sets": sets,
             "scale": rng.choice([None, None, None, 1e-9, 0.5])}      # grid values are scale*k: distinct floats, possibly tiny
 
@@ -591,7 +604,11 @@ def _exec_combine(plan, res, log, pid, mode):
                               {"op": "combine", "level": "combine", "type": nm})
                 return
     sc = plan.get("scale")
-    if sc is None:
+    if plan.get("mixed_types"):
+        sc_ = 1.0 if sc is None else sc
+        got_params = {k: [round(float(x) / sc_, 6) for x in union.params[k]] for k in pn}
+        ugrid = {k: [round(float(x), 6) for x in v] for k, v in ugrid.items()}
+    elif sc is None:
         got_params = {k: [int(x) for x in union.params[k]] for k in pn}
     else:
         got_params = {k: [int(round(float(x) / sc)) for x in union.params[k]] for k in pn}
